@@ -552,10 +552,38 @@ func c08Growth(c *Ctx, p *Prog) {
 			}
 		}
 		resets := false
-		for _, st := range storesToField(fn, flatF) {
-			if k, ok := st.Val.(*ssa.Const); ok && k.IsNil() {
-				resets = true
+		// in the function itself, or in a method of the projection it calls on every path (a helper that discards
+		// the cache)
+		resetIn := func(g *ssa.Function) bool {
+			for _, st := range storesToField(g, flatF) {
+				if k, ok := st.Val.(*ssa.Const); ok && k.IsNil() {
+					return true
+				}
 			}
+			return false
+		}
+		resets = resetIn(fn)
+		if !resets {
+			eachInstr(fn, func(b *ssa.BasicBlock, in ssa.Instruction) {
+				call, ok := in.(*ssa.Call)
+				if !ok {
+					return
+				}
+				sc := call.Call.StaticCallee()
+				if sc == nil || sc.Blocks == nil || sc.Pkg != fn.Pkg || !resetIn(sc) {
+					return
+				}
+				// the call is unconditional: its block lies on every path to a return
+				all := true
+				for _, rb := range fn.Blocks {
+					if _, isRet := rb.Instrs[len(rb.Instrs)-1].(*ssa.Return); isRet && !(b == rb || b.Dominates(rb)) {
+						all = false
+					}
+				}
+				if all {
+					resets = true
+				}
+			})
 		}
 		c.Check(grows && resets, R, fnName(fn)+":grows-together", p.pos(fn.Pos()), "field count, row buffer and flattened-field cache are updated together",
 			fmt.Sprintf("adding a field does not keep the row buffer and the flattened-field cache in step (row grows: %v, cache reset: %v): later rows index past the buffer or comparisons walk a stale field list", grows, resets))
